@@ -195,11 +195,21 @@ package vm
 //@   modifies nothing
 //@ end
 
-//@ func (*vm.StateChanges).FindKeyIndices
+// lookup by name and index path: the walk through childrenIndex, one map step per path segment (every segment
+// counts, the empty one included). Stated for paths of length 0, 1 and 2 - instances of the general statement, which
+// needs a recursive spec function the contract language does not have.
+//@ func (*vm.StateChanges).FindKeyIndices(s, account, stateVarName, indices) (key)
 //@   verify
 //@   safety [C03]
 //@   requires recv: s != nil
-//@   loop 0 invariant cursor-nonnil: cursor != nil
+//@   let first = s.roots[account].childrenIndex[stateVarName]
+//@   let second = first.childrenIndex[strof(indices[0])]
+//@   loop 0 invariant cursor-nonnil: cursor != nil && rangeindex + 1 <= len(indices)
+//@   loop 0 invariant walked [C11]: (rangeindex == -1 ==> cursor == first) && (rangeindex == 0 ==> cursor == second) && (rangeindex == 1 ==> cursor == second.childrenIndex[strof(indices[1])])
+//@   ensures unknown-account-or-variable [C11]: s.roots[account] == nil || first == nil ==> key == nil
+//@   ensures path-of-length-0 [C11]: s.roots[account] != nil && len(indices) == 0 ==> key == first
+//@   ensures path-of-length-1 [C11]: s.roots[account] != nil && first != nil && len(indices) == 1 ==> key == second
+//@   ensures path-of-length-2 [C11]: s.roots[account] != nil && first != nil && second != nil && len(indices) == 2 ==> key == second.childrenIndex[strof(indices[1])]
 //@   modifies nothing
 //@ end
 
